@@ -63,6 +63,11 @@ def run_stream(out, stream, cases, via_manager=False):
             else:
                 if id(s) not in remotes: remotes[id(s)] = SwitcherBreezeRemote(s)      # one remote object serves every request on its set
                 r = remotes[id(s)]
+            if k % 4 == 1:           # an application takes the list of supported modes and edits ITS list (a picker without some modes): the remote's own view is untouched
+                try:
+                    lst = r.supported_modes
+                    if isinstance(lst, list): lst.reverse(); del lst[1:]
+                except Exception: pass
             if k % 3 == 0:           # an application looks at the per-mode feature table first, also for modes the set may lack: reading changes nothing
                 for m in ThermostatMode:
                     try: r.modes_features[m]
